@@ -207,22 +207,19 @@ class PerformanceEntry(
             path = ""
 
             programs = []
-            samples = []
             for patch in patches:
                 program = sc_program._decode(
                     patch,
                     context,  # type: ignore
                     path
                 )
-
-                samples_result = sc_samples._decode(
-                    patch,
-                    context,  # type: ignore
-                    path
-                )
-
                 programs.append(program)
-                samples += samples_result
+
+            samples = sc_samples._decode(
+                patches,
+                context,  # type: ignore
+                path
+            )
             
             files = programs + samples
 
